@@ -40,20 +40,26 @@ Definition prop_no_escalation (args : list bytes) : bytes :=
            | None => bs "FAIL unknown version"
            | Some f =>
                if match kind_of (ev_type e) with KPowerLevels => false | _ => true end then bs "ok"
-               else if spec_int_levels ver &&
-                       negb (match content_of e with
-                             | CoObj o => level_members_integer o
-                             | _ => true end)
-               then bs "FAIL non-integer level accepted in an integer-only version"
                else
+               let non_integer :=
+                 spec_int_levels ver &&
+                 negb (match content_of e with
+                       | CoObj o => level_members_integer o
+                       | _ => true end) in
                let a := abs_spec so sr f e al in
                match ai_create a, ai_new_pl a with
                | Some c, Some new =>
+                   (* the escalation clauses first, so that an escalation is never reported as a
+                      mere spelling matter *)
                    let L := user_power_level f c (ai_pl_present a) (ai_pl a) (ai_sender a) in
                    if negb (no_escalation_b f c L (ai_sender a) (ai_pl a) new)
                    then bs "FAIL escalation: accepted change violates clauses 1-5"
+                   else if non_integer
+                   then bs "FAIL non-integer level accepted in an integer-only version"
                    else bs "ok"
-               | _, _ => bs "FAIL accepted power-levels event without create or content"
+               | _, _ =>
+                   if non_integer then bs "FAIL non-integer level accepted in an integer-only version"
+                   else bs "FAIL accepted power-levels event without create or content"
                end
            end)
         (bs "badargs")
